@@ -23,7 +23,7 @@ from dliswriter.utils.internal.types import (
 )
 from dliswriter.utils.internal.sized_generator import SizedGenerator
 from dliswriter.utils import enums
-from dliswriter.logical_record.core.eflr import EFLRItem, AttrSetup
+from dliswriter.logical_record.core.eflr import EFLRItem, EFLRSet, AttrSetup
 from dliswriter.logical_record.misc import StorageUnitLabel
 from dliswriter.logical_record import eflr_types
 from dliswriter.logical_record.iflr_types.no_format_frame_data import NoFormatFrameData
@@ -302,6 +302,18 @@ class LogicalFile:
 
         self._no_format_frame_data: list[NoFormatFrameData] = []
 
+    def _register(self, eflr_set: EFLRSet, item: EFLRItem) -> None:
+        """Register the set of a newly made item with this logical file and number the item among its namesakes.
+
+        An object is identified by its set type, origin, copy number and name: the copy number tells apart the objects
+        of one type and name in the whole logical file, also if they are in differently named sets of that type.
+        """
+
+        self._eflr_sets.try_add_set(eflr_set)
+        namesakes = [it for it in self._eflr_sets.get_all_items_for_set_type(type(eflr_set))
+                     if it.name == item.name and it is not item]
+        item._copy_number = len(namesakes)
+
     @property
     def file_header(self) -> eflr_types.FileHeaderItem:
         """File header of this Logical File"""
@@ -386,7 +398,7 @@ class LogicalFile:
             parent=parent,
             origin_reference=origin_reference or self.default_origin_reference,
         )
-        self._eflr_sets.try_add_set(parent)
+        self._register(parent, ax)
 
         return ax
 
@@ -462,7 +474,7 @@ class LogicalFile:
             parent=parent,
             origin_reference=origin_reference or self.default_origin_reference,
         )
-        self._eflr_sets.try_add_set(parent)
+        self._register(parent, c)
 
         return c
 
@@ -541,7 +553,7 @@ class LogicalFile:
             parent=parent,
             origin_reference=origin_reference or self.default_origin_reference,
         )
-        self._eflr_sets.try_add_set(parent)
+        self._register(parent, c)
 
         return c
 
@@ -683,7 +695,7 @@ class LogicalFile:
             parent=parent,
             origin_reference=origin_reference or self.default_origin_reference,
         )
-        self._eflr_sets.try_add_set(parent)
+        self._register(parent, m)
 
         return m
 
@@ -773,7 +785,7 @@ class LogicalFile:
             parent=parent,
             origin_reference=origin_reference or self.default_origin_reference,
         )
-        self._eflr_sets.try_add_set(parent)
+        self._register(parent, ch)
 
         if data is not None:
             self._data_dict[ch.dataset_name] = data
@@ -838,7 +850,7 @@ class LogicalFile:
             parent=parent,
             origin_reference=origin_reference or self.default_origin_reference,
         )
-        self._eflr_sets.try_add_set(parent)
+        self._register(parent, c)
 
         return c
 
@@ -910,7 +922,7 @@ class LogicalFile:
             parent=parent,
             origin_reference=origin_reference or self.default_origin_reference,
         )
-        self._eflr_sets.try_add_set(parent)
+        self._register(parent, c)
 
         return c
 
@@ -1027,7 +1039,7 @@ class LogicalFile:
             parent=parent,
             origin_reference=origin_reference or self.default_origin_reference,
         )
-        self._eflr_sets.try_add_set(parent)
+        self._register(parent, eq)
 
         return eq
 
@@ -1140,7 +1152,7 @@ class LogicalFile:
             parent=parent,
             origin_reference=origin_reference or self.default_origin_reference,
         )
-        self._eflr_sets.try_add_set(parent)
+        self._register(parent, fr)
 
         return fr
 
@@ -1186,7 +1198,7 @@ class LogicalFile:
             ),
             origin_reference=origin_reference or self.default_origin_reference,
         )
-        self._eflr_sets.try_add_set(parent)
+        self._register(parent, g)
 
         return g
 
@@ -1286,7 +1298,7 @@ class LogicalFile:
             parent=parent,
             origin_reference=origin_reference or self.default_origin_reference,
         )
-        self._eflr_sets.try_add_set(parent)
+        self._register(parent, ln)
 
         return ln
 
@@ -1337,7 +1349,7 @@ class LogicalFile:
             parent=parent,
             origin_reference=origin_reference or self.default_origin_reference,
         )
-        self._eflr_sets.try_add_set(parent)
+        self._register(parent, m)
 
         return m
 
@@ -1386,7 +1398,7 @@ class LogicalFile:
             parent=parent,
             origin_reference=origin_reference or self.default_origin_reference,
         )
-        self._eflr_sets.try_add_set(parent)
+        self._register(parent, nf)
 
         return nf
 
@@ -1580,7 +1592,7 @@ class LogicalFile:
             name_space_version=name_space_version,
             parent=parent,
         )
-        self._eflr_sets.try_add_set(parent)
+        self._register(parent, o)
 
         if (
             len(list(self._eflr_sets.get_all_items_for_set_type(eflr_types.OriginSet)))
@@ -1655,7 +1667,7 @@ class LogicalFile:
             parent=parent,
             origin_reference=origin_reference or self.default_origin_reference,
         )
-        self._eflr_sets.try_add_set(parent)
+        self._register(parent, p)
 
         return p
 
@@ -1778,7 +1790,7 @@ class LogicalFile:
             parent=parent,
             origin_reference=origin_reference or self.default_origin_reference,
         )
-        self._eflr_sets.try_add_set(parent)
+        self._register(parent, p)
 
         return p
 
@@ -1854,7 +1866,7 @@ class LogicalFile:
             parent=parent,
             origin_reference=origin_reference or self.default_origin_reference,
         )
-        self._eflr_sets.try_add_set(parent)
+        self._register(parent, p)
 
         return p
 
@@ -1906,7 +1918,7 @@ class LogicalFile:
             parent=parent,
             origin_reference=origin_reference or self.default_origin_reference,
         )
-        self._eflr_sets.try_add_set(parent)
+        self._register(parent, sp)
 
         return sp
 
@@ -1967,7 +1979,7 @@ class LogicalFile:
             parent=parent,
             origin_reference=origin_reference or self.default_origin_reference,
         )
-        self._eflr_sets.try_add_set(parent)
+        self._register(parent, t)
 
         return t
 
@@ -2057,7 +2069,7 @@ class LogicalFile:
             parent=parent,
             origin_reference=origin_reference or self.default_origin_reference,
         )
-        self._eflr_sets.try_add_set(parent)
+        self._register(parent, w)
 
         return w
 
@@ -2118,7 +2130,7 @@ class LogicalFile:
             ),
             origin_reference=origin_reference or self.default_origin_reference,
         )
-        self._eflr_sets.try_add_set(parent)
+        self._register(parent, z)
 
         return z
 
